@@ -1767,6 +1767,7 @@ Section C07.
              if is_err sh then st2
              else match ls with
                   | SHole _ =>
+                    if bytes_eqb x (b "env") then st2 else
                     st_set x (match r with
                               | ESym k | EStr k => STuple [(k, SAny)]
                               | EInt _ => SListAny
@@ -1785,6 +1786,7 @@ Section C07.
       if is_err sh then st2
       else match ls with
            | SHole _ =>
+             if bytes_eqb x (b "env") then st2 else
              st_set x (match r with
                        | ESym k | EStr k => STuple [(k, SAny)]
                        | EInt _ => SListAny
